@@ -80,6 +80,13 @@ def main():
     # (batches, cases per interpreter run, Miri seeds per batch)
     batches, per, seeds = (6, 8, 16) if tier == "quick" else (60, 16, 64)
     t0 = time.time()
+    # no Miri on this machine: the clause stays unexplored by this engine, which is said in the
+    # evidence rather than turned into a verdict either way
+    p = subprocess.run(["cargo", "+nightly", "miri", "--version"], capture_output=True, text=True, env=ENV)
+    if p.returncode != 0:
+        print("NOTE property=C15 engine=miri: cargo +nightly miri is not available here; lost-update clause not explored by Miri in this run")
+        merge(tier, 0, 0, 0, 0.0, 0, "", 0, skipped="cargo +nightly miri not available: " + (p.stderr.strip().splitlines() or ["?"])[-1])
+        sys.exit(0)
     # build once; a compile error is a harness error, not a verdict
     rc, out = miri("-Zmiri-seed=0", [0, 0])
     if rc != 0:
@@ -137,7 +144,7 @@ def main():
     sys.exit(0)
 
 
-def merge(tier, runs, cases, seeds, wall, viol, path, orders):
+def merge(tier, runs, cases, seeds, wall, viol, path, orders, skipped=None):
     evp = os.environ.get("VSIM_EVIDENCE_DIR", VERIF + "/evidence") + "/C15.json"
     try:
         ev = json.load(open(evp))
@@ -150,6 +157,8 @@ def merge(tier, runs, cases, seeds, wall, viol, path, orders):
         "real_components": ["vhost-user-backend bitmap.rs (AtomicBitmapMmap, BitmapMmapRegion, MmapLogReg indexing)", "std atomics, RwLock, threads as interpreted by Miri"],
         "stub_components": ["guest region (geometry only)", "log area (anonymous mapping instead of the frontend's file)"],
     }
+    if skipped:
+        ev["coverage"]["miri_atomicity"]["skipped"] = skipped
     ev["wall_s"] = round(ev.get("wall_s", 0) + wall, 2)
     if viol:
         ev["violations"] = ev.get("violations", 0) + 1
